@@ -275,6 +275,13 @@ def _apply_directive(ex, d, node, st, txt):
             fk = REG.field_key(fname, cls)
             ex.h.set_field(st, o, fk[0], fk[1], ex.ev(a, st))
         return V(T.Ref(cls), [o])
+    if kind == "construct":
+        # ("construct", cls, contract-key of __init__): allocate a fresh object, then the constructor's contract
+        cls, ckey = d[1], d[2]
+        o = ex.new_obj(st, cls)
+        return_self = V(T.Ref(cls), [o])
+        _call_contract(ex, ckey, node, st, return_self)
+        return return_self
     if kind == "pyfunc":
         return d[1](ex, node, st, recv)
     if kind == "keyfield":
@@ -519,6 +526,11 @@ def _spec_form(ex, name, node, st):
         for a in node.args[1:]:
             args += ex.ev(a, st).terms
         return V(fv.ty.ret, [fv.fn(*args)])
+    if name == "isfresh":
+        # the object was allocated during the call (not reachable in the pre-state)
+        from .engine import PRE_ALLOC
+        v = T.opt_inner(ex.ev(node.args[0], st))
+        return T.mk_bool(z3.Not(PRE_ALLOC(v.t)))
     if name == "anc":
         # anc(x, k): the (k+1)-th ancestor of tree node x (k = 0: parent), None beyond the root
         x = T.opt_inner(ex.ev(node.args[0], st))
@@ -833,6 +845,15 @@ def _quant_genexp(ex, name, ge, node, st):
 def _method(ex, f: ast.Attribute, node, st):
     name = f.attr
     # module functions
+    if isinstance(f.value, ast.Name) and f.value.id == "copy" and f.value.id not in st.env and name == "copy":
+        v = T.opt_inner(ex.ev(node.args[0], st))
+        if not isinstance(v.ty, T.Ref):
+            raise Unsupported("copy.copy of a non-object", node)
+        o = ex.new_obj(st, "copy")
+        for fk, fty in list(REG.fields.items()):
+            if fk.startswith(v.ty.cls + "."):
+                ex.h.set_field(st, o, fk, fty, ex.h.get_field(st, v.t, fk, fty))      # shallow: references are shared
+        return V(v.ty, [o])
     if isinstance(f.value, ast.Name) and f.value.id == "math" and f.value.id not in st.env:
         v = ex.ev(node.args[0], st)
         x = to_real(ex.num(v))
